@@ -113,7 +113,7 @@ theorem vmapSet_none_length (nv nd : Nat) (vd : Option (List String)) (dims : Li
   · injection h with h; subst h; simp
   · split at h
     · cases vd with
-      | none => simp at h
+      | none => simp at h; subst h; simp
       | some l =>
         simp only at h
         injection h with h
